@@ -355,7 +355,13 @@ impl FormatString {
     }
 }
 
-fn get_starting_point(file_info: &WalkEntry) -> &Path {
+fn get_starting_point<'a>(file_info: &'a WalkEntry, given: Option<&'a Path>) -> &'a Path {
+    // The starting point as it was given can only come from the walk: the
+    // entry's path cannot tell "dir/" from "dir".
+    if let Some(given) = given {
+        return given;
+    }
+
     file_info
         .path()
         .ancestors()
@@ -380,6 +386,7 @@ fn format_non_link_file_type(file_type: FileType) -> char {
 fn format_directive<'entry>(
     file_info: &'entry WalkEntry,
     directive: &FormatDirective,
+    starting_point: Option<&'entry Path>,
 ) -> Result<Cow<'entry, str>, Box<dyn Error>> {
     let meta = || file_info.metadata();
 
@@ -497,7 +504,7 @@ fn format_directive<'entry>(
             strip_starting_point: true,
         } => file_info
             .path()
-            .strip_prefix(get_starting_point(file_info))
+            .strip_prefix(get_starting_point(file_info, starting_point))
             // safe to unwrap: the prefix is derived *from* the path to begin
             // with, so it cannot be invalid.
             .unwrap()
@@ -534,7 +541,9 @@ fn format_directive<'entry>(
             }
         }
 
-        FormatDirective::StartingPoint => get_starting_point(file_info).to_string_lossy(),
+        FormatDirective::StartingPoint => {
+            get_starting_point(file_info, starting_point).to_string_lossy()
+        }
 
         FormatDirective::SymlinkTarget => {
             if file_info.path_is_symlink() {
@@ -607,7 +616,7 @@ impl Printf {
         })
     }
 
-    fn print(&self, file_info: &WalkEntry, mut out: impl Write) {
+    fn print(&self, file_info: &WalkEntry, starting_point: Option<&Path>, mut out: impl Write) {
         for component in &self.format.components {
             match component {
                 FormatComponent::Literal(literal) => write!(out, "{literal}").unwrap(),
@@ -616,7 +625,7 @@ impl Printf {
                     directive,
                     width,
                     justify,
-                } => match format_directive(file_info, directive) {
+                } => match format_directive(file_info, directive, starting_point) {
                     Ok(content) => {
                         if let Some(width) = width {
                             match justify {
@@ -648,9 +657,13 @@ impl Printf {
 impl Matcher for Printf {
     fn matches(&self, file_info: &WalkEntry, matcher_io: &mut MatcherIO) -> bool {
         if let Some(file) = &self.output_file {
-            self.print(file_info, file);
+            self.print(file_info, matcher_io.starting_point(), file);
         } else {
-            self.print(file_info, &mut *matcher_io.deps.get_output().borrow_mut());
+            self.print(
+                file_info,
+                matcher_io.starting_point(),
+                &mut *matcher_io.deps.get_output().borrow_mut(),
+            );
         }
 
         true
